@@ -14,7 +14,11 @@ import z3
 import vcommon as V
 from vcommon import log
 import native as N
-import mir, sym, opcheck as Q, listkernels as L
+import mir, sym, opcheck as Q, listkernels as L, bridgekernels as BR
+
+
+def bridge_summaries(bk, tier):
+    return [bk.summarize(m, n) for m in ("map", "filter") for n in range(BR.NMAX.get(tier, 3) + 1)]
 
 
 def list_summaries(lk, tier):
@@ -101,6 +105,19 @@ def check(scratch, nat, a, t0):
         pf = []
         for s in summ:
             pf += L.check_summary(s, profile, qs, timeout_ms, V.seed(), "C13")
+        # map / filter: the built-in together with its callback bridge, callback results arbitrary
+        bk = BR.BridgeKernels(lk.mf, oc, scratch.repo, seed=V.seed())
+        info["functions"][profile].update(bk.encoded_functions())
+        bsum = bridge_summaries(bk, a.tier)
+        nb, mismb = BR.validate(bsum, nat.eval_raw, release)
+        info["validation_vectors"][profile + ":map-filter"] = nb
+        if mismb:
+            for m in mismb[:10]:
+                log("  TRANSLATOR MISMATCH", m)
+            raise V.Inconclusive("engine B disagrees with the real map/filter bridge on %d of %d vectors (%s), first: %r" % (len(mismb), nb, profile, mismb[0]))
+        info["paths"][profile] += sum(len(s.paths) for s in bsum)
+        for s in bsum:
+            pf += BR.check_summary(s, profile, qs, timeout_ms, V.seed(), "C13")
         confirm(pf, nat, release)
         findings += pf
         log("  [%s] %d obligations so far, %d candidate findings" % (profile, qs.obligations, len(pf)))
@@ -152,9 +169,10 @@ def report(a, findings, qs, info, t0):
                          "mirsym interpreter, validated on this run against the real BuiltInFunction::run on %s vectors (result, receiver contents and argument contents compared)" % info["validation_vectors"],
                          "pointer model of gc::Gc / GcCell with borrow flags (mirsym/gcmodels.py); contract models of Vec::{push,remove,clear,reverse,append,extend,len}, slice::to_vec, Iterator::{enumerate,find}",
                          "std models used: " + ", ".join(sorted(set(sum(info["models"].values(), [])))),
-                         "sequence model: /verif/mirsym/listkernels.py oracle()"],
+                         "sequence model: /verif/mirsym/listkernels.py oracle(), /verif/mirsym/bridgekernels.py expected_result()",
+                         "the callback-bridge driver loop of Function::run (6 lines) is replicated in bridgekernels._drive and in the native harness"],
         "functions_encoded": info["functions"], "paths": info["paths"],
-        "bounds": "list methods len, push, remove, reverse, clear, clone, index_of, join (other list / the receiver itself): receiver of 0..%d elements, argument list of 0..%d elements, every element and every index/value argument a full-width symbolic i32 (elements of kind int only); one operation from an arbitrary state (inductive step); maps, index read/assignment, map/filter callbacks, `==`, longer lists, other element kinds outside" % (L.NMAX.get(a.tier, 3), L.MMAX.get(a.tier, 2)),
+        "bounds": "list methods len, push, remove, reverse, clear, clone, index_of, join (other list / the receiver itself): receiver of 0..%d elements, argument list of 0..%d elements, every element and every index/value argument a full-width symbolic i32 (elements of kind int only); one operation from an arbitrary state (inductive step). map / filter: receiver of 0..%d elements, the built-in plus the three bridge methods from their MIR, the driver loop of Function::run replicated, callback results arbitrary (int / bool). Maps, index read/assignment, `==`, longer lists, other element kinds, callbacks that fail or mutate the list outside" % (L.NMAX.get(a.tier, 3), L.MMAX.get(a.tier, 2), BR.NMAX.get(a.tier, 3)),
         "vacuity_witnesses": info["witnesses"],
         "solver_time_s": round(qs.solver_s, 2),
         "samples": qs.samples[:8] + [fdict(f) for f in list(new.values())[:4]],
